@@ -155,6 +155,9 @@ macro_rules! by_al {
 }
 
 
+#[allow(unused_imports)]
+pub(crate) use by_al;
+
 fn mk<const A: usize, const L: usize>(t: u64, ticks: &[u32], trading: bool) -> Box<dyn DynMarket> {
     let mut tk = [1u32; A];
     tk.copy_from_slice(&ticks[..A]);
